@@ -539,7 +539,7 @@ def run_property(prop_id, tier, seed, only=None):
         for sig, v in st.known.items():
             known_hits[sig] = known_hits.get(sig, 0) + v
 
-    write_evidence(mod, prop_id, tier, seed, agg, meta, wall, len(seen), known_hits, n_reg, problems)
+    write_evidence(mod, prop_id, tier, seed, agg, meta, wall, len(seen), known_hits, n_reg, problems, partial=only is not None)
 
     for sig, cnt in sorted(known_hits.items()):
         print(f'KNOWN-FINDING: property={prop_id} {known[sig].get("what", sig)} [signature={sig} hits={cnt}]')
@@ -560,7 +560,7 @@ def run_property(prop_id, tier, seed, only=None):
     return 0
 
 
-def write_evidence(mod, prop_id, tier, seed, agg, meta, wall, nviol, known_hits, n_reg, problems):
+def write_evidence(mod, prop_id, tier, seed, agg, meta, wall, nviol, known_hits, n_reg, problems, partial=False):
     samples = []
     for name, st in agg.items():
         for s in st.samples[:3]:
@@ -594,7 +594,9 @@ def write_evidence(mod, prop_id, tier, seed, agg, meta, wall, nviol, known_hits,
         'violations': nviol,
     }
     os.makedirs(os.path.join(OUT, 'evidence'), exist_ok=True)
-    with open(os.path.join(OUT, 'evidence', f'{prop_id}.json'), 'w') as f:
+    # a run restricted with --only is a development aid: it must never replace the evidence of the registered check
+    name = f'{prop_id}.partial.json' if partial else f'{prop_id}.json'
+    with open(os.path.join(OUT, 'evidence', name), 'w') as f:
         json.dump(ev, f, indent=1, default=_json_default)
 
 
